@@ -51,7 +51,7 @@ func For(prop string) []Variant {
 // sorted keys of obligations that are not discharged, ignoring known findings
 // (a variant is judged relative to the unmodified tree).
 func failing(repo string, overlay map[string][]byte, prop string) ([]string, error) {
-	p, err := an.LoadFast(repo, overlay)
+	p, err := an.LoadNormalized(repo, overlay, true)
 	if err != nil {
 		return nil, err
 	}
